@@ -139,7 +139,9 @@ func (o *rx) Evaluate(tx plugintypes.TransactionState, value string) bool {
 	// Gap 2: exact-match bypass for patterns like ^Upload$ — skip the NFA entirely.
 	// The \n guard protects against multi-line inputs where (?m)$ matches
 	// before a newline (e.g. "Upload\nmore" would satisfy (?sm)^Upload$).
-	if o.exactMatch != "" && !strings.ContainsRune(value, '\n') {
+	// The exact-match shortcut knows nothing about capture groups: when the rule captures,
+	// let the regex run so that TX.0-9 are filled exactly as without the prefilter.
+	if o.exactMatch != "" && !tx.Capturing() && !strings.ContainsRune(value, '\n') {
 		if o.exactMatchCI {
 			return strings.EqualFold(value, o.exactMatch)
 		}
